@@ -672,7 +672,17 @@ int main(int argc, char **argv)
     std::vector<int> blockSizes = { 1, 2, 16 };
     if (thorough) blockSizes.push_back(4096);
 
-    // ---- 0. corpus: minimized past findings first (the 65537-block case is section 4)
+    // ---- 0. corpus: minimized past findings first.
+    // (a) 65537 blocks of size 1: before repo commit 49cbe2e (int counters against the 16-bit wire field) block 65536 was
+    //     refused with <unexpected-request/>; it must now succeed (oracle key C19:ibb-seq-wrap otherwise).
+    {
+        Case big { 1, 4096, true, "pat", makeContent("pat", 65537, rng), {} };
+        big.finishHonestly = false;
+        big.ops = { "run 65535", "deliver", "deliver", "deliver", "deliver", "deliver", "deliver" };
+        runCase(big);
+        stat("wrap_cases");
+    }
+    // (b) no hash announced, one bit flipped (recorded finding C19:nohash-altered-accepted) and its neighbours
     runCase({ 2, 4096, false, "hex", QByteArray::fromHex("b66071"), { "deliver", "flip 0" } });
     runCase({ 2, 4096, true, "hex", QByteArray::fromHex("b66071"), { "deliver", "flip 0" } });
     runCase({ 2, 4096, false, "hex", QByteArray::fromHex("b66071"), { "deliver", "swap" } });
@@ -764,24 +774,24 @@ int main(int argc, char **argv)
         runCase(c);
     }
     stat("random_sequences", nrand);
-    // ---- 4. more than 65536 blocks: the 16-bit wire sequence number wraps
+    // ---- 4. around and beyond 65536 blocks: the 16-bit sequence numbers of both jobs wrap together
     {
-        const long n = 65537;
-        for (const char *kind : { "pat" }) {
-            Case big { 1, 4096, true, kind, makeContent(kind, n, rng), {} };
-            big.finishHonestly = false;
-            big.ops = { "run 65535", "deliver", "deliver", "deliver", "deliver", "deliver", "deliver" };
-            runCase(big);
-            Case edge { 1, 4096, true, kind, makeContent(kind, 65536, rng), {} };  // exactly 65536 blocks: still fine
-            runCase(edge);
-            stat("wrap_cases", 2);
-        }
+        Case edge { 1, 4096, true, "pat", makeContent("pat", 65536, rng), {} };  // exactly 65536 blocks
+        runCase(edge);
+        // a duplicate right after the wrap is still refused; a lost block right at the wrap is still detected
+        Case dupAtWrap { 1, 4096, true, "pat", makeContent("pat", 65540, rng), { "run 65537", "dup" } };
+        runCase(dupAtWrap);
+        Case dropAtWrap { 1, 4096, true, "pat", makeContent("pat", 65540, rng), { "run 65537", "drop" } };
+        runCase(dropAtWrap);
+        stat("wrap_cases", 3);
         if (thorough) {
             Case big2 { 2, 4096, true, "pat", makeContent("pat", 2 * 65536 + 1, rng), {} };
             runCase(big2);
             Case big3 { 1, 4096, false, "zero", makeContent("zero", 70000, rng), {} };
             runCase(big3);
-            stat("wrap_cases", 2);
+            Case big4 { 1, 4096, false, "pat", makeContent("pat", 2 * 65536 + 3, rng), {} };  // wraps twice
+            runCase(big4);
+            stat("wrap_cases", 3);
         }
     }
     stat("ibb_ops", totalOps);
